@@ -349,6 +349,28 @@ func c05ExecValidateSub(st *State, line string) Result {
 		k, h := c05KeyOf(UnHex(t[1])), c05HashOf(UnHex(t[2]))
 		s.ghost[k] = h
 		return Result{Out: "ok", LeanIn: fmt.Sprintf("glock %d %d", in.key(k), in.id(h[:]))}
+	case "lock": // lock <hex transaction>: LockUTXOs as the kernel does after a successful validation
+		if len(t) != 2 {
+			return bad
+		}
+		ver, err := common.UnmarshalVersionedTransaction(UnHex(t[1]))
+		if err != nil {
+			return bad
+		}
+		h := ver.PayloadHash()
+		var sb strings.Builder
+		n := 0
+		for _, i := range ver.Inputs {
+			if c05IsSpecialInput(i) {
+				continue
+			}
+			if u := s.utxos[c05VRef(i.Hash, i.Index)]; u != nil {
+				u.LockHash = h
+			}
+			fmt.Fprintf(&sb, " %d %d", in.id(i.Hash[:]), i.Index)
+			n++
+		}
+		return Result{Out: "ok", LeanIn: fmt.Sprintf("lock %d %d%s", in.id(h[:]), n, sb.String()), Tags: []string{"ledger:lock-own-hash"}}
 	case "batch": // batch msgHex n (key sig)…
 		return c05ExecBatch(t)
 	case "validate":
@@ -808,6 +830,9 @@ func c05CheckAuthorization(s *c05VStore, ver *common.VersionedTransaction, hash 
 		}
 		if total > 0 && crypto.AggregateVerify(&as.Signature, allKeys, as.Signers, hash) != nil {
 			return "aggregate signature does not verify over the payload hash"
+		}
+		if total > 0 && !c05RefAggregateVerify(&as.Signature, allKeys, as.Signers, hash) {
+			return "aggregate signature does not verify under the reference key aggregation (per-signer coefficients over domain, transcript, index, key)"
 		}
 	}
 	return ""
